@@ -86,8 +86,12 @@ def _backend(v):
     return Shared()
 
 
+_RATE_EQUATIONS = {}      # name -> (parameter names, right-hand side, initial value, number of concentrations): the mechanisms as written below
+
+
 def _ode(name, argnames, rhs, init, nres=1, extra_req=None, tier="quick"):
     fnq = "%s:%s" % (MOD, name)
+    _RATE_EQUATIONS[name] = (argnames, rhs, init, nres)
 
     @harness("C17", name + ".ode", functions=[fnq], div_mode="assume", samples=6, tier=tier)
     def h_ode(v):
@@ -520,3 +524,104 @@ def _(v):
                 except Exception as exc:
                     bad.append((be, repr(exc)[:60]))
             v.prove(label + ".float_value_long_after_completion_is_the_steady_state_of_the_rate_equation", not bad, detail=repr(bad[:3]))
+
+
+# values of order one, all different, major > minor (the documented order)
+_BASE_VALUES = {"kf": 0.7, "kb": 0.45, "prod": 0.2, "major": 1.3, "minor": 0.6, "initial_C": 1.2, "k": 0.8, "r": 1.1, "p": 0.25, "fr": 1.6, "fp": 0.35, "fv": 0.9}
+
+
+def _coincidences(argnames):
+    """(label, arguments): every pair of parameters given the SAME value (Python == holds between them), and all parameters the same value -- keeping
+    major >= minor, the documented order of the two reactants"""
+    base = [_BASE_VALUES[n] for n in argnames]
+    ordered = lambda a: "major" not in argnames or a[argnames.index("major")] >= a[argnames.index("minor")]
+    out = []
+    for i in range(len(argnames)):
+        for j in range(i + 1, len(argnames)):
+            for val in (base[i], base[j]):
+                a = list(base)
+                a[i] = a[j] = val
+                if ordered(a):
+                    out.append(("%s=%s" % (argnames[i], argnames[j]), tuple(a)))
+                    break
+    out.append(("all_parameters_equal", tuple(0.5 for _ in argnames)))
+    return out
+
+
+@harness("C17", "coinciding_parameters", functions=[MOD + ":dimerization_irrev", MOD + ":pseudo_irrev", MOD + ":pseudo_rev", MOD + ":binary_irrev", MOD + ":binary_rev", MOD + ":unary_irrev_cstr",
+                                                    MOD + ":binary_irrev_cstr"], kind="data")
+def _(v):
+    """'identically in time and in all parameters ... for all positive rate constants, initial/feed concentrations': also where two parameters have the
+    SAME value (equimolar reactants, a rate constant equal to the feed rate, the tank started at the feed concentration, ...).  The symbolic identities are
+    proved for independent symbols and cannot see what a closed form does when Python's == holds between two of its arguments (a branch for a special
+    case), nor a removable singularity there; so for every pair of parameters made equal (and for all equal) each advertised backend is run on numbers and
+    every finite value it returns at t = 0, 0.4, 1.7, 4 must be the solution of the mechanism's initial value problem -- the rate equation of the property
+    statement (the one the .ode harness is written with) integrated from the stated initial concentration by mpmath's Taylor-series integrator with 25
+    digits, no closed form involved.  The sympy backend gets the exact rationals of the same floats.
+    Only at the removable singularity that the assumptions name (binary_irrev with major == minor: the expression divides by their difference) a backend may
+    refuse -- raise, or return nan/inf --; whatever it returns there as a finite number is held to the same rate equation (for equimolar A + B -> P:
+    d[P]/dt = kf (c - xi)^2, i.e. P = prod + c^2 kf t / (1 + c kf t)).  Everywhere else the closed form has to evaluate."""
+    import warnings
+    import mpmath
+    import numpy
+    import sympy
+    from chempy.kinetics import integrated as I
+    times = (0.0, 0.4, 1.7, 4.0)
+
+    def reference(rhs, init, nres, args):
+        with mpmath.workdps(25):
+            a = [mpmath.mpf(x) for x in args]
+            y0 = init(*a)
+            y0 = list(y0) if nres > 1 else [y0]
+            if nres > 1:
+                F = lambda t, y: list(rhs(tuple(y), *a))
+            else:
+                F = lambda t, y: [rhs(y[0], *a)]
+            sol = mpmath.odefun(F, 0, y0)
+            return {tt: [float(c) for c in sol(tt)] for tt in times}
+
+    def evaluate(fn, tt, args, be):
+        """the list of floats a backend returns, or None for a refusal (an exception, or a result that is not a finite real number)"""
+        try:
+            with warnings.catch_warnings():
+                warnings.simplefilter("ignore")
+                if be is sympy:
+                    got = fn(sympy.Rational(tt), *[sympy.Rational(x) for x in args], **_bk(fn, be))
+                    got = got if isinstance(got, tuple) else (got,)
+                    got = [sympy.N(g, 30) for g in got]
+                    if not all(g.is_real and g.is_finite for g in got):
+                        return None, "not a finite real number: %s" % (got,)
+                else:
+                    got = fn(tt, *args, **_bk(fn, be))
+                    got = got if isinstance(got, tuple) else (got,)
+                got = [float(g) for g in got]
+        except Exception as exc:
+            return None, repr(exc)[:80]
+        return (got, "") if all(math.isfinite(g) for g in got) else (None, "not finite: %s" % (got,))
+
+    for name, (argnames, rhs, init, nres) in sorted(_RATE_EQUATIONS.items()):
+        fn = getattr(I, name, None)
+        if fn is None:
+            v.prove(name + ".is_offered", False, detail="chempy.kinetics.integrated has no %s" % name)
+            continue
+        backends = (("math", math), ("numpy", numpy), ("sympy", sympy)) if _bk(fn, None) else (("default", None),)
+        for label, args in _coincidences(argnames):
+            removable = name == "binary_irrev" and args[argnames.index("major")] == args[argnames.index("minor")]
+            bad = []
+            try:
+                want = reference(rhs, init, nres, args)
+            except Exception as exc:       # of the reference integration (not of the code under test)
+                want, bad = None, [("reference integration", repr(exc)[:120])]
+            scale = max(args)
+            for bname, be in (backends if want else ()):
+                for tt in times:
+                    got, why = evaluate(fn, tt, args, be)
+                    if got is None:
+                        if not removable:
+                            bad.append((bname, tt, "not evaluated", why))
+                        continue
+                    if len(got) != nres:
+                        bad.append((bname, tt, "number of results", len(got)))
+                    bad.extend((bname, tt, g, w) for g, w in zip(got, want[tt]) if not abs(g - w) <= 1e-9 * abs(w) + 1e-11 * scale)
+            v.prove("%s.%s.%s" % (name, label, "refused_or_solves_the_rate_equation_from_the_stated_start" if removable else "solves_the_rate_equation_from_the_stated_start"),
+                    not bad, detail="%s%r: (backend, t, returned, solution of the initial value problem) %r" % (name, args, bad[:3]))
